@@ -51,7 +51,9 @@ pub fn host_configs(layout: &Layout, seed: AddrSeed) -> Vec<RuntimeConfig> {
         Layout::Hosts(cores) => {
             let b = 10 + (seed.shard % 200) as u64;
             let c = 1 + (seed.job % 250);
-            let base_port = 20000 + ((seed.job / 250) * 211 % 30000) as u16;
+            // concurrent `vrun check` processes (e.g. a background sweep) get disjoint port ranges
+            let run_id: u64 = std::env::var("VERIF_RUN_ID").ok().and_then(|s| s.parse().ok()).unwrap_or(0) % 12;
+            let base_port = (24000 + run_id * 3300 + ((seed.job / 250) * 211 % 3000)) as u16;
             let hosts: Vec<HostConfig> = cores
                 .iter()
                 .enumerate()
